@@ -12,8 +12,11 @@ RULE = (
     "numpy/pandas/list rendering with default/shuffled/string index).  Forced shapes: a group whose values are "
     "all null, block-confined groups, sorted prefix, single group, all keys null, all-false mask.  A case is "
     "non-trivial when it has >= 2 groups and at least one of: an all-null group, first-appearance order that is "
-    "not ascending, a mask that empties a group, a null key.  A `realscale` sub-check adds 1M-2M row inputs on keys that "
-    "stay contiguous (categorical, two keys, sorted) with a group confined to the tail / to blocks, against a NumPy "
+    "not ascending, a mask that empties a group, a null key.  A quarter of the cases take the routes of large inputs with the "
+    "switch-over threshold scaled down (chunk-wise factorization, sorted and sorted-prefix fast paths; float/datetime keys with "
+    "nulls), and a third of the masked cases are the second or third masked call on one grouping object (one mask buffer "
+    "refilled in place).  A `realscale` sub-check adds 1M-2M row inputs on keys that "
+    "stay contiguous (categorical, two keys, sorted) and on float keys with NaN runs (sorted, sorted prefix, unsorted: the real monotonic / partially monotonic / chunk-wise routes) with a group confined to the tail / to blocks, against a NumPy "
     "reference (groups of any size: the library switches to several threads there).  Distinct = distinct case hash."
 )
 ORACLE = ("independent pure-Python model: group selected rows by key tuple, reduce non-null values with exact "
@@ -44,7 +47,13 @@ def ops_for(dtype):
 @st.composite
 def case_strategy(draw, variant, ops=None, mask_kinds=("none", "none", "bool", "bool", "slice", "pos")):
     n = draw(st.sampled_from([0, 1, 2, 3, 4, 5, 6, 8, 10, 12, 16, 20, 30, 40]))
-    keys = draw(S.keys(n))
+    layout = draw(st.sampled_from(["contiguous", "contiguous", "contiguous", "chunkwise"]))
+    if layout == "chunkwise":
+        # the routes large inputs take (chunk-wise factorization, sorted / sorted-prefix fast path), threshold scaled down
+        n = max(n, 4)
+        keys = [draw(S.key_column(n, types=("int", "float", "dt"), shape=draw(st.sampled_from(["random", "blocks", "sorted", "sorted_prefix"]))))]
+    else:
+        keys = draw(S.keys(n))
     regime = draw(st.sampled_from(["exact", "exact", "wild"]))
     vspec = draw(S.value_column(n, dtypes=VARIANTS[variant], regime=regime))
     nullable = vspec["dtype"].startswith(("float", "M8", "m8", "tz:"))
@@ -55,13 +64,23 @@ def case_strategy(draw, variant, ops=None, mask_kinds=("none", "none", "bool", "
         vspec["vals"] = [None if labels[i] == victim else v for i, v in enumerate(vspec["vals"])]
     mask = draw(S.mask_spec(n, kinds=mask_kinds))
     op = draw(st.sampled_from(ops or ops_for(vspec["dtype"])))
+    # earlier masked calls on the same grouping object, with masks of the examined mask's kind (boolean masks and
+    # position arrays of equal length go through ONE buffer that is refilled in place between the calls)
+    prior = []
+    if mask is not None and draw(st.sampled_from([False, False, True])):
+        for _ in range(draw(st.integers(1, 2))):
+            if mask["kind"] == "pos" and n:
+                prior.append({"kind": "pos", "vals": draw(st.lists(st.integers(0, n - 1), min_size=len(mask["vals"]), max_size=len(mask["vals"])))})
+            else:
+                prior.append(draw(S.mask_spec(n, kinds=(mask["kind"],))))
     render = {
         "kc": draw(st.sampled_from(["np", "np", "series", "list"])) if n > 0 else "np",
         "vc": draw(st.sampled_from(["np", "series"])),
         "index": draw(st.sampled_from(["default", "default", "shuffled", "str", "dup"])),
         "mc": draw(st.sampled_from(["np", "series"])),
     }
-    return {"n": n, "keys": keys, "vals": [vspec], "mask": mask, "op": op, "render": render,
+    return {"n": n, "keys": keys, "vals": [vspec], "mask": mask, "op": op, "render": render, "layout": layout, "prior": prior,
+            "threshold": draw(st.integers(1, max(n, 1))), "key_chunks": draw(st.integers(1, 5)),
             "sort": draw(st.sampled_from([True, True, False]))}
 
 
@@ -88,14 +107,33 @@ def check(case, ctx, sub="reduce"):
     op = case["op"]
     vspec = case["vals"][0]
     keys, vals, mask, index = gbops.render(case)
-    gb = gbops.build(case, keys)
-    res = gbops.call(gb, op, vals[0], mask)
+    chunkwise = case.get("layout") == "chunkwise"
+    with (gbops.Shims(threshold=case["threshold"], key_chunks=case["key_chunks"]) if chunkwise else gbops.Shims()):
+        gb = gbops.build(case, keys)
+        observed_chunked = bool(getattr(gb, "key_is_chunked", False))
+        prior = case.get("prior") or []
+        if prior:
+            import numpy as np
+
+            shared = isinstance(mask, np.ndarray) and all(len(p.get("vals", ())) == len(mask) for p in prior)
+            buf = np.empty_like(mask) if shared else None
+            for p in prior:
+                pm = data.render_mask(p, case["n"], "np", index)
+                if shared:
+                    buf[:] = pm
+                    pm = buf
+                gbops.call(gb, op, vals[0], pm)
+            if shared:
+                buf[:] = mask
+                mask = buf
+        res = gbops.call(gb, op, vals[0], mask)
     labels, pos, groups = gbops.model_groups(case)
     _, _, groups_all = gbops.model_groups(case, mask=None)
     flags = nontrivial_flags(case, labels, groups_all, groups)
     nt = len(groups_all) >= 2 and bool(flags)
     classes = [f"op:{op}", f"dtype:{vspec['dtype']}", "mask:" + (case["mask"]["kind"] if case["mask"] else "none"),
-               f"nkeys:{len(case['keys'])}"] + [f"flag:{f}" for f in flags] + [f"keytype:{k['t']}" for k in case["keys"]]
+               f"nkeys:{len(case['keys'])}", f"layout:{case.get('layout', 'contiguous')}", f"observed_chunked:{observed_chunked}",
+               f"prior_calls:{len(prior)}"] + [f"flag:{f}" for f in flags] + [f"keytype:{k['t']}" for k in case["keys"]]
     if "all_null_group" in flags and "unsorted_first_appearance" in flags and case["mask"] is None:
         classes.append("forced:allnull+unsorted+nomask")
     ctx.seen(sub, case, nt, classes)
@@ -109,7 +147,7 @@ def check(case, ctx, sub="reduce"):
 @st.composite
 def big_case(draw, variant):
     return {"n": draw(st.sampled_from([999_999, 1_000_000, 1_000_001, 2_000_003])),
-            "keykind": draw(st.sampled_from(["categorical", "two_keys", "sorted"])),
+            "keykind": draw(st.sampled_from(["categorical", "two_keys", "sorted", "float_sorted_nan", "float_prefix_nan", "float_unsorted_nan"])),
             "structure": draw(st.sampled_from(["tail_group", "blocks", "uniform"])),
             "op": draw(st.sampled_from(["sum", "mean", "min", "max", "first", "last", "count", "size"])),
             "vkind": draw(st.sampled_from(["float_nan", "int", "bool", "uint8"])),
@@ -131,8 +169,16 @@ def big_check(case, ctx):
         k = np.sort((i * 13) % g)[::-1].copy()
     else:
         k = (i * (2654435761 + case["salt"])) % 1000003 % g
-    if case["keykind"] == "sorted":
+    if case["keykind"] in ("sorted", "float_sorted_nan"):
         k = np.sort(k)
+    elif case["keykind"] == "float_prefix_nan":
+        k[: n // 2 + case["salt"]] = np.sort(k[: n // 2 + case["salt"]])
+    nullkey = np.zeros(n, bool)
+    if case["keykind"].startswith("float_"):
+        # NaN keys: a run inside the rows (between two labels and inside a label) and a run at the very end
+        nullkey[n // 3: n // 3 + 7 + case["salt"]] = True
+        nullkey[n - 10 - case["salt"]:] = True
+        nullkey[(i % 100_003) == 5] = True
     if case["vkind"] == "float_nan":
         v = (((i * 17 + case["salt"]) % 4097) - 2048).astype(float) / 8.0
         v[(i % 7) == 2] = np.nan
@@ -152,6 +198,10 @@ def big_check(case, ctx):
     elif case["keykind"] == "two_keys":
         keys = [k // 2, k % 2]
         lab_of = lambda c: (int(c // 2), int(c % 2))
+    elif case["keykind"].startswith("float_"):
+        keys = k.astype("float64") * 0.5
+        keys[nullkey] = np.nan
+        lab_of = lambda c: (float(c) * 0.5,)
     else:
         keys = k
         lab_of = lambda c: (int(c),)
@@ -166,7 +216,7 @@ def big_check(case, ctx):
     exp = {}
     vf = v.astype(float)
     for c in range(g):
-        rows = np.nonzero(sel & (k == c))[0]
+        rows = np.nonzero(sel & (k == c) & ~nullkey)[0]
         if not len(rows):
             continue
         x = vf[rows]
